@@ -654,13 +654,27 @@ def encExtBody (env : Env) (rec : Ty → Val → Enc) (vname : String) (value : 
     | some i => rec (.ptr (entry env i).ty) value
     | none => .error .illTyped
 
+/-- the encoder result is a panic (or the stack limit), not an error return -/
+def isPanic (e : Enc) : Bool :=
+  match e with
+  | .error .err => false
+  | .error .alloc => false
+  | .error _ => true
+  | .ok _ => false
+
 /-- `(*ExtensionObject).Encode` for a non-nil receiver -/
-def encExtObj (env : Env) (rec : Ty → Val → Enc) (mask : Nat) (typeId : Option ExpNodeId) (vname : String) (value : Val) : Enc := do
-  let t ← encTypeId typeId
-  if mask = 0 then pure (t ++ leBytes 1 mask)
+def encExtObj (env : Env) (rec : Ty → Val → Enc) (mask : Nat) (typeId : Option ExpNodeId) (vname : String) (value : Val) : Enc :=
+  -- `buf.WriteStruct(e.TypeID)` only sets the sticky error of `buf`; the body is written into its own buffer, so
+  -- a panic or error while encoding the body comes before the error of the type id (a panic in the type id is first)
+  let t := encTypeId typeId
+  if isPanic t then t
+  else if mask = 0 then do
+    let tb ← t
+    pure (tb ++ leBytes 1 mask)
   else do
     let body ← encExtBody env rec vname value
-    pure (t ++ leBytes 1 mask ++ leBytes 4 body.length ++ body)
+    let tb ← t
+    pure (tb ++ leBytes 1 mask ++ leBytes 4 body.length ++ body)
 
 /-! ## the reflective walk -/
 
